@@ -16,9 +16,17 @@ from ..core import Check, Unit
 from ..sym import all_close, close
 
 METHODS = [None, "lsoda", "vode", "ivode", "dopri5", "dop853"]
+FORMS = ["list", "tuple", "array", "scalar", "int_array", "int_list", "int_tuple"]
 
 
 def _grid(c, k, form):
+    if form.startswith("int_"):
+        # TYPED time input: integer-typed requested times with a fractional initial time (a dtype is enumerated,
+        # not symbolic): whatever assembles the time vector must not cast t0 to the grid's dtype
+        t0 = 0.5
+        ts = [int(j + 1) for j in range(k)]
+        g = {"int_array": np.arange(1, k + 1), "int_list": list(ts), "int_tuple": tuple(ts)}[form]
+        return t0, ts, g
     t0 = c.real("t0")
     ts = []
     prev = t0
@@ -43,7 +51,7 @@ def ifj_unit(method, full_output, include_origin, n, k):
     from pygom.model import ode_utils
 
     def h(c):
-        form = ["list", "tuple", "array", "scalar"][c.choice("form", 4)]
+        form = FORMS[c.choice("form", len(FORMS))]
         kk = 1 if form == "scalar" else k
         a = c.vec("a", n, lo=0.5, hi=3)
         x0 = c.vec("x", n, lo=1, hi=20)
@@ -77,14 +85,16 @@ def ifj_unit(method, full_output, include_origin, n, k):
         for kind, integ, tp, yp, val in probes:
             if kind == "f":
                 c.prove(all_close(val, -a * yp, c), "integrator evaluates f(t,y) in (t,y) order")
+            if kind in ("f", "f_odeint") and integ is probes[0][1]:
+                c.prove(close(tp, t0, c), "integration starts at the supplied initial time")
         if full_output:
             out = r[1]
             c.prove(len(out["suc"]) == kk and len(out["ev"]) == kk and len(out["maxev"]) == kk
                     and len(out["minev"]) == kk, "full_output lists have one entry per time")
             c.prove(out["in"] in ("lsoda", "vode", "ivode", "dopri5", "dop853"), "integrator name reported")
     return Unit("ifj[method=%s,full=%s,origin=%s,n=%d,k=%d]" % (method, full_output, include_origin, n, k), h,
-                bounds={"states": n, "times": k, "grid_forms": ["list", "tuple", "array", "scalar"]},
-                tol=2e-5, max_paths=6000)
+                bounds={"states": n, "times": k, "grid_forms": FORMS},
+                tol=2e-5, max_paths=9000)
 
 
 def _ref_solution(b, g, x0, t0, ts):
@@ -99,7 +109,7 @@ def model_unit(entry, method, full_output, k):
     """entry points of the model classes on the 2-state infection model"""
 
     def h(c):
-        form = ["list", "tuple", "array", "scalar"][c.choice("form", 4)]
+        form = FORMS[c.choice("form", len(FORMS))]
         kk = 1 if form == "scalar" else k
         m = models.cached("sir2")
         b = c.real("b", lo=0.05, hi=0.2)
@@ -138,13 +148,15 @@ def model_unit(entry, method, full_output, k):
         c.prove(all_close(m.initial_state, x0_before, c), "model initial state is not modified")
         for kind, integ, tp, yp, val in probes:
             S, J = yp[0], yp[1]
+            if kind in ("f", "f_odeint") and integ is probes[0][1]:
+                c.prove(close(tp, t0, c), "integration starts at the supplied initial time")
             if kind in ("f", "f_odeint"):
                 c.prove(all_close(val, [-b * S * J, b * S * J - g * J], c), "integrator is handed the model's f with the right argument order")
             else:
                 c.prove(all_close(val, [[-b * J, -b * S], [b * J, b * S - g]], c), "integrator is handed the model's Jacobian with the right argument order")
     return Unit("model[%s,method=%s,full=%s,k=%d]" % (entry, method, full_output, k), h,
-                bounds={"states": 2, "times": k, "model": "S'=-bSJ, J'=bSJ-gJ", "grid_forms": ["list", "tuple", "array", "scalar"]},
-                tol=2e-5, max_paths=6000, program={"model": "sir2", "entry": entry})
+                bounds={"states": 2, "times": k, "model": "S'=-bSJ, J'=bSJ-gJ", "grid_forms": FORMS},
+                tol=2e-5, max_paths=9000, program={"model": "sir2", "entry": entry})
 
 
 class C02(Check):
